@@ -61,7 +61,7 @@ def cfg_coq(sig, params=None, ret=None) -> str:
         ps = "[" + "; ".join(f"({common.coq_str(n)}, {vt_coq(t)})" for n, t in params) + "]"
         rt = f"(Some {vt_coq(ret)})"
     return (f"Definition subs0 : list subsig := [{subs}].\nDefinition macs0 : list macsig := [{macs}].\n"
-            f"Definition cfg (h : N) : config := mkcfg subs0 macs0 {ps} {rt} h.\n")
+            f"Definition cfg (h : N) : config := mkcfg no_fixes subs0 macs0 {ps} {rt} h.\n")
 
 
 def run_python(jobs, want_sig=True, nproc=None, timeout=3000):
